@@ -1,7 +1,11 @@
 """--parse-only on file arguments does not know __all__: the stub has no __all__, exports everything public and omits underscore names that __all__ makes public.
 
 Exit status 1 = defect present, 0 = absent, 2 = inconclusive (preconditions of the input failed).
-Mechanism keys: stubtest:parse-only:__all__:is not present in stub, structure:parse-only:missing:private-name-listed-in-__all__, stubtest:parse-only:private-name-listed-in-__all__:is not present in stub"""
+Mechanism keys:
+  stubtest:parse-only:__all__:is not present in stub
+  structure:parse-only:missing:private-name-listed-in-__all__
+  stubtest:parse-only:private-name-listed-in-__all__:is not present in stub
+"""
 import os
 import sys
 
